@@ -739,7 +739,7 @@ func runMC(c *core.Ctx, pl *pool, st *stats, m mcCfg, nworkers int) error {
 		plans = setStr(m.plans)
 	}
 	res, err := c.MustTLC(core.TLCOpts{Module: "MC_PacketConn", Cfg: "MC_PacketConn.cfg", Workers: m.workers, Coverage: m.coverage,
-		Timeout: 14 * time.Minute,
+		Timeout: 14 * time.Minute, HeapMB: 2048,
 		OnEmit:  func(p json.RawMessage) { ch <- append(json.RawMessage(nil), p...) },
 		Consts: map[string]string{"MAXPKTS": fmt.Sprint(m.maxPkts), "SHAPES": setStr(m.shapes), "CRYPTOS": setStr(m.cryptos),
 			"EVERYK": setStr(m.everyK), "SINGLECUTS": m.singleCuts, "CORREVERYK": setStr(m.corrEveryK), "LENMASKS": setStr(m.lenMasks), "PLANS": plans}})
@@ -774,6 +774,20 @@ func runMC(c *core.Ctx, pl *pool, st *stats, m mcCfg, nworkers int) error {
 	return nil
 }
 
+// onePacketPlans codes every one-packet sequence over sub x cryptos (flushed and not).
+func onePacketPlans(shapes, sub, cryptos []int) []int {
+	var out []int
+	for _, sh := range sub {
+		rank := sort.SearchInts(shapes, sh)
+		for f := 0; f < 2; f++ {
+			for _, cr := range cryptos {
+				out = append(out, (2*rank+f+1)*100+cr)
+			}
+		}
+	}
+	return out
+}
+
 // samplePlans draws packet sequences (coded as MC_PacketConn!Plans) for the sampled part.
 func samplePlans(rnd *rand.Rand, shapes []int, cryptos []int, n int, minLen, maxLen int) []int {
 	seen := map[int]bool{}
@@ -806,6 +820,7 @@ func runC35(c *core.Ctx) error {
 		return err
 	}
 	nproc := c.Pick(4, 8)
+	c.Logf("driver built")
 	pl, err := newPool(drv, nproc)
 	if err != nil {
 		return err
@@ -836,11 +851,10 @@ func runC35(c *core.Ctx) error {
 	allCryptos := []int{0, 1, 2, 10, 11, 12}
 	var cfgs []mcCfg
 	if !c.Thorough() {
-		cfgs = append(cfgs, mcCfg{name: "exhaustive-1", maxPkts: 1, shapes: []int{1000, 1003, 1016, 1040, 3008, 4008}, cryptos: []int{0, 1, 11, 12},
-			everyK: []int{1, 7}, singleCuts: "class", corrEveryK: []int{0}, lenMasks: []int{1, 16}, coverage: true, workers: 4})
-		cfgs = append(cfgs, mcCfg{name: "sampled-2..3", maxPkts: 3, shapes: allShapes, cryptos: allCryptos,
-			everyK: []int{1, 3, 16, 17}, singleCuts: "class", corrEveryK: []int{0, 1}, lenMasks: []int{1, 16, 255},
-			plans: samplePlans(rnd, allShapes, allCryptos, 10, 2, 3), workers: 4})
+		plans := onePacketPlans(allShapes, []int{1000, 1003, 1016, 1040, 3008, 3012, 4008}, []int{0, 1, 11, 12})
+		plans = append(plans, samplePlans(rnd, allShapes, allCryptos, 6, 2, 3)...)
+		cfgs = append(cfgs, mcCfg{name: "1-packet-exhaustive+sampled-2..3", maxPkts: 3, shapes: allShapes, cryptos: allCryptos,
+			everyK: []int{1, 7, 16}, singleCuts: "class", corrEveryK: []int{0}, lenMasks: []int{1, 16}, plans: plans, coverage: true, workers: 4})
 	} else {
 		cfgs = append(cfgs, mcCfg{name: "exhaustive-1", maxPkts: 1, shapes: allShapes, cryptos: allCryptos,
 			everyK: []int{1, 2, 3, 5, 7, 11, 13, 16, 17}, singleCuts: "all", corrEveryK: []int{0, 1, 16}, lenMasks: []int{1, 2, 8, 16, 64, 255},
@@ -892,17 +906,21 @@ func runC35(c *core.Ctx) error {
 		return err
 	}
 
+	// ---- nonce negotiation table (concurrently with the traces: both mostly wait for TLC)
+	negoDone := make(chan error, 1)
+	go func() { negoDone <- negoTable(c, pl) }()
+
 	// ---- (b) random scenarios recorded as traces, validated by TLC
-	if err := randomTraces(c, pl, rnd); err != nil {
-		return err
+	terr := randomTraces(c, pl, rnd)
+	nerr := <-negoDone
+	if terr != nil {
+		return terr
+	}
+	if nerr != nil {
+		return nerr
 	}
 	if c.NViolations() > 0 {
 		return nil
-	}
-
-	// ---- nonce negotiation table
-	if err := negoTable(c, pl); err != nil {
-		return err
 	}
 
 	c.Set("rule", "every scenario TLC enumerates from MC_PacketConn (crypto x packets x chunking x corruption class) is replayed into a real client/server PacketConn pair over an in-memory connection applying the model's chunking and corrupted byte; wire bytes, delivered packets, error kinds, bytes pulled per call and pongs are compared with the specification; random scenarios are validated by TLC against TracePacketConn")
